@@ -42,12 +42,12 @@ structure Model where
   cons : List Con
   deriving Repr, Inhabited
 
-/-- Kinds that `_choose_solver` / `_solve_dfs` route to the SAT encoder. -/
+/-- Kinds that `_choose_solver` / `_solve_dfs` always route to the SAT encoder. -/
 def Con.satRequired : Con → Bool
   | .sumEq .. | .sumLe .. | .sumGe .. | .circuit .. | .noOverlap .. | .cumulative .. => true
   | _ => false
 
-/-- `Model._choose_solver`: `true` = SAT, `false` = DFS. -/
-def chooseSat (M : Model) : Bool := M.cons.any Con.satRequired
+/-- `_solve_dfs` falls back to the SAT encoder exactly for these kinds. -/
+def dfsFallback (M : Model) : Bool := M.cons.any Con.satRequired
 
 end Solvor.Cp
